@@ -246,7 +246,7 @@ UNIT = {
          # rule X15 (below) mirrors this impl
          "require_source": [r"impl<T> Deref for Located<T> \{\s*type Target = T;\s*fn deref\(&self\) -> &Self::Target \{\s*&self\.data\s*\}"]},
         {"kind": "impl", "file": E, "impl": r"^impl<T> Located<T>$",
-         "methods": {"extract_data": {"props": ["C12"],
+         "methods": {"extract_data": {"props": ["C12", "C07"],
              "sig_rewrites": [("S1", r"-> T$", "-> (r: T)")],
              "contract": "        ensures r == self.data,"}}},
         {"kind": "enum", "file": P, "name": "LibraryNameElement"},
@@ -260,7 +260,7 @@ UNIT = {
                       ("X14", r"(?://[^\n]*\n\s*)?lib_instances: HashMap<LibraryName, Library<R>>,", "", 0, "S"),
                       ("X14", r"_marker: PhantomData<R>,", "_marker: PhantomData<&'a R>,", 1)]},
         {"kind": "impl", "file": I, "impl": r"^impl<'a, R: RealNumberInternalTrait> Interpreter<'a, R>$",
-         "methods": {"eval_import_set": {"props": ["C12"],
+         "methods": {"eval_import_set": {"props": ["C12", "C07"],
              "attrs": "#[verifier::exec_allows_no_decreases_clause]",
              "sig_rewrites": [("S1", r"-> Result<Vec<\(String, Value<R>\)>>$", "-> (r: Result<Vec<(String, Value<R>)>>)")],
              "rewrites": [
